@@ -43,7 +43,9 @@ var c18Magnitudes = []string{
 }
 
 var c18Odd = []string{" 1 ", "0x10", "1_000", "+5", "-0", "1.0", "1e3", "1E3", "1e400", "-1e400", "NaN", "Inf", "-Inf", "+Inf", "infinity", "0b11", "0o17", "١", "1,000", "1.", ".5", "1e", "--1",
-	"010", "0123", "-0755", "00017777777777", "08", "007", "0010.50", "00", "-00"}
+	"010", "0123", "-0755", "00017777777777", "08", "007", "0010.50", "00", "-00",
+	// decimal digits of other scripts (zero on a 16-aligned code point: full-width, Arabic-Indic, Thai; not aligned: Devanagari, Bengali, Tamil, mathematical bold)
+	"１２", "١٢", "๑๒", "१२", "१२३", "১০", "-૨૧", "१.२", "௧e௨", "𝟐𝟑", "1२"}
 
 // exact value of an odd string under the reading a user would expect, if any
 func c18OddValue(s string) (*big.Rat, string) {
@@ -74,6 +76,20 @@ func c18OddValue(s string) (*big.Rat, string) {
 		return r, ""
 	case "010":
 		return big.NewRat(10, 1), ""
+	case "１２", "١٢", "๑๒", "१२", "1२":
+		return big.NewRat(12, 1), ""
+	case "१२३":
+		return big.NewRat(123, 1), ""
+	case "১০":
+		return big.NewRat(10, 1), ""
+	case "-૨૧":
+		return big.NewRat(-21, 1), ""
+	case "१.२":
+		return big.NewRat(6, 5), ""
+	case "௧e௨":
+		return big.NewRat(100, 1), ""
+	case "𝟐𝟑":
+		return big.NewRat(23, 1), ""
 	case "0123":
 		return big.NewRat(123, 1), ""
 	case "-0755":
